@@ -300,6 +300,32 @@ fn c04_q_spsc_recv_timeout0_vs_send_then_close() {
   std::mem::forget(tx);
 }
 
+/// C01 view of the same window: a receiver that keeps calling recv_timeout until Disconnected must have
+/// been handed every successfully sent value (here: the one value sent just before the sender closed).
+#[kani::proof]
+#[kani::unwind(3)]
+fn c01_q_spsc_recv_timeout_drain_vs_send_then_close() {
+  setup!(1, 0, tx, rx);
+  sched::install(a_send7_then_close, 1, 1);
+  let r1 = rx.as_mut().unwrap().recv_timeout(Duration::ZERO);
+  sched::run_pending();
+  sched::uninstall();
+  let mut got = matches!(r1, Ok(7));
+  let mut disc = matches!(r1, Err(RecvErrorTimeout::Disconnected));
+  if !got && !disc {
+    // timed out before the send landed: keep receiving
+    let r2 = rx.as_mut().unwrap().recv_timeout(Duration::ZERO);
+    got = matches!(r2, Ok(7));
+    disc = matches!(r2, Err(RecvErrorTimeout::Disconnected));
+  }
+  assert!(!(disc && !got), "C01: Disconnected observed although a successfully sent value was never delivered");
+  assert!(got, "C01: the sent value was not delivered to a receiver that kept receiving");
+  kani::cover!(matches!(r1, Err(RecvErrorTimeout::Timeout)), "first timed receive timed out");
+  kani::cover!(matches!(r1, Ok(_)), "first timed receive got the value");
+  std::mem::forget(rx);
+  std::mem::forget(tx);
+}
+
 /// C01: the receiver goes away at any synchronisation point inside a batch send: the error accounts for
 /// every value (sent + unsent == input, unsent is the input suffix), nothing is silently dropped.
 #[kani::proof]
